@@ -68,6 +68,10 @@ def engine_b_part(prop, tier):
             if reproduced:
                 if not any(rp == rpath for (_l, rp) in viol):  # one line per kernel and semantics; the file keeps the last witness
                     viol.append((line, rpath))
+            elif s_.get("abstracted"):
+                # the path went through a havoc'd loop (over-approximation): a witness that does not replay is
+                # not a counterexample of the real code; that exit stays undecided (recorded, never an alarm)
+                r.setdefault("abstraction_undecided", []).append({"path_kind": s_["path_kind"], "witness": s_["witness"], "replayed": bool(rep)})
             else:
                 inc.append(line + " -- witness did not reproduce natively (encoding suspect)")
     cov = {"engine_b": {"summary": summ, "kernels": [{k: v for k, v in r.items() if k != "sat"} | {"sat": len(r["sat"])} for r in results],
